@@ -42,7 +42,7 @@ def history_witness(quick=True):
         fresh = base / "fresh"
         nnvg(fresh, ["--file-mode", "0o644"])
         ref = snap(fresh)
-        steps = [["--file-mode", "0o444"], ["--file-mode", "0o644"], ["--no-overwrite"], ["--omit-serialization-support"], ["--file-mode", "0o600", "--pp-trim-trailing-whitespace"]]
+        steps = [["--file-mode", "0o444"], ["--file-mode", "0o755"], ["--no-overwrite"], ["--omit-serialization-support"], ["--file-mode", "0o600", "--pp-trim-trailing-whitespace"]]
         n = 0
         for seq in itertools.product(range(len(steps)), repeat=2 if quick else 3):
             n += 1
